@@ -10,6 +10,7 @@ import (
 	"sort"
 	"strings"
 	"sync"
+	"sync/atomic"
 	"testing"
 	"time"
 
@@ -45,7 +46,23 @@ type syncBuf struct {
 func (s *syncBuf) Write(p []byte) (int, error) { s.mu.Lock(); defer s.mu.Unlock(); return s.b.Write(p) }
 func (s *syncBuf) String() string              { s.mu.Lock(); defer s.mu.Unlock(); return s.b.String() }
 
+// freePort picks a listening port for a child process. It stays below the kernel's ephemeral range (32768..60999
+// here): a port from that range can be taken by any outgoing connection between the moment the harness releases it
+// and the moment the child binds it, which on a busy machine happens ("bind: address already in use").
+var portCounter atomic.Int64
+
 func freePort() int {
+	shard, _ := evid.Shard()
+	for try := 0; try < 200; try++ {
+		n := portCounter.Add(1)
+		port := 10000 + int((int64(os.Getpid())*7919+int64(shard)*104729+n*13)%22000)
+		l, err := net.Listen("tcp", fmt.Sprintf("127.0.0.1:%d", port))
+		if err != nil {
+			continue
+		}
+		l.Close()
+		return port
+	}
 	l, err := net.Listen("tcp", "127.0.0.1:0")
 	if err != nil {
 		return 0
@@ -241,13 +258,23 @@ func c20Check(c c20Case) *evid.Fail {
 	if c.BadYAML != "" {
 		yaml.WriteString(c.BadYAML + "\n")
 	}
-	p, err := startBinary(args, env, yaml.String())
-	if err != nil {
-		return evid.Failf("harness-start", "%v", err)
+	var p *proc
+	var state string
+	for try := 0; ; try++ {
+		var err error
+		p, err = startBinary(args, env, yaml.String())
+		if err != nil {
+			return evid.Failf("harness-start", "%v", err)
+		}
+		state = p.waitServing(10 * time.Second)
+		if state == "exited" && try < 3 && strings.Contains(p.tail(), "address already in use") {
+			p.kill() // the listening port chosen by the harness was taken by somebody else: not the proxy's doing
+			continue
+		}
+		break
 	}
 	defer p.kill()
 	what := fmt.Sprintf("%s (args %v env %v yaml %q)", c.Why, args, env, yaml.String())
-	state := p.waitServing(10 * time.Second)
 	switch c.Expect {
 	case "refuse":
 		if state == "serving" {
